@@ -671,6 +671,30 @@ pub fn run(mode: &str, thorough: bool, seed: u64, w: &mut impl std::io::Write) {
             }
         }
     }
+    // limits, destination lengths and payload lengths named by integer literals of the source under test
+    {
+        let nd = nums_dict();
+        let mut nn = 0usize;
+        for &v in nd.iter().filter(|v| **v >= 2 && **v <= 70000).take(40) {
+            let data: Vec<u8> = (0..v + 3).map(|i| b'a' + (i % 26) as u8).collect();
+            let payload: Vec<u8> = (0..v).map(|i| b'A' + (i % 26) as u8).collect();
+            let ops = vec![AdOp::Read(v), AdOp::Write(payload.clone()), AdOp::Read(v - 1), AdOp::Read(v + 1), AdOp::Read(4)];
+            if mode == "chain" {
+                chain_line(&mk(1, &data[..v], vec![]), &mk(2, &data, vec![]), &ops, w);
+                chain_line(&mk(1, &data[..1], vec![]), &mk(2, &data, vec![RAct::Data(v, false), RAct::Data(v - 1, false)]), &ops, w);
+                nn += 2;
+            }
+            if mode == "take" {
+                for limit in [v as u64 - 1, v as u64, v as u64 + 1] {
+                    take_line(&mk(1, &data, vec![]), limit, &ops, w);
+                    take_line(&mk(1, &data, vec![]), limit, &[AdOp::Read(4), AdOp::Read(v + 5), AdOp::Read(1)], w);
+                    nn += 2;
+                }
+            }
+        }
+        eprintln!("STAT ad numeric_dictionary={} scenarios={}", nd.len(), nn);
+        n += nn;
+    }
     let bw = big_writes(mode, w);
     eprintln!("STAT ad big_writes={} lengths=2^31-1,2^31,2^31+5,2^32+1", bw);
     n += bw;
